@@ -59,6 +59,7 @@ struct PeerConfig
   // --- client role
   std::uint16_t connectPort = 0;
   double deadlineSeconds = 20.0; // hard upper bound on the peer's life
+  int startDelayMs = 0;          // after TCP establishment: stay silent this long before reading / writing anything
 };
 
 struct PeerResult
@@ -544,10 +545,24 @@ private:
         _res.tcpEstablished = true;
       }
       setNonBlocking(fd);
+      if (_cfg.startDelayMs > 0)
+      {
+        pollfd p{_stopPipe[0], POLLIN, 0}; // a stop request ends the silence early (it stays readable)
+        ::poll(&p, 1, _cfg.startDelayMs);
+      }
       if (_cfg.kind == PeerKind::OpenSsl)
         runTls(fd);
       else
         runRaw(fd);
+      // Close with a reset instead of an orderly FIN (except right after an HTTP reply the
+      // other side may still be reading): whichever side closed first, no socket is left in
+      // TIME_WAIT. An exhaustive walk makes ~500 connections per second; at one TIME_WAIT
+      // minute each, the 28 k ephemeral ports (needed for the listeners) would run out.
+      if (!(_res.responded && !_res.eof))
+      {
+        linger lg{1, 0};
+        ::setsockopt(fd, SOL_SOCKET, SO_LINGER, &lg, sizeof lg);
+      }
       ::close(fd);
     }
     ERR_clear_error();
